@@ -256,11 +256,17 @@ def run(chk):
         N = rng.randint(1, 3)
         cc = ChainControl([d] * nsites)
         per_site = [[] for _ in range(nsites)]
-        for _ in range(rng.randint(1, 5)):
+        for c_ in range(rng.randint(1, 5)):
             site, step, post = rng.randrange(nsites), rng.randint(0, N), rng.random() < 0.5
             a_ = np.array([[rng.gauss(0, 1) + 1j * rng.gauss(0, 1) for _ in range(d)] for _ in range(d)])
-            kind = rng.choice(["unitary", "left", "channel"])
-            if kind == "unitary":
+            kind = rng.choice(["unitary", "left", "channel", "structured"])
+            if c_ == 0 and i < 4:
+                kind = "structured"        # every run: kicks whose superoperator is diagonal / a permutation / a projector
+            if kind == "structured":
+                u_ = [np.diag([1.0, -1.0]), np.diag([1.0, 1j]), np.diag(np.exp(-0.4j * np.array([1.0, -1.0]))), np.array([[0.0, 1.0], [1.0, 0.0]]),
+                      np.diag([1.0, 0.0]), np.diag([1.0, 0.5])][(i + rng.randrange(2) * 4) % 6 if c_ == 0 and i < 4 else rng.randrange(6)].astype(complex)
+                m = np.kron(u_, u_.conj())
+            elif kind == "unitary":
                 q_, _ = np.linalg.qr(a_)
                 m = np.kron(q_, q_.conj())
             elif kind == "left":
@@ -269,7 +275,7 @@ def run(chk):
                 m = 0.5 * np.kron(a_, a_.conj()) / max(1.0, np.abs(a_).max() ** 2) + 0.5 * np.eye(d2)
             cc.add_single_site_control(m.copy(), site, step, post)
             per_site[site].append((step, post, m))
-        rhos = [oqupy.operators.spin_dm(rng.choice(["x+", "y-", "z+"])) for _ in range(nsites)]
+        rhos = [oqupy.operators.spin_dm(rng.choice(["x+", "y-", "z+"]) if i >= 4 else rng.choice(["x+", "y-"])) for _ in range(nsites)]
         info = {"kind": "PtTebd+ChainControl", "sites": nsites, "N": N, "controls": [[(st, po) for st, po, _ in h] for h in per_site]}
         try:
             chain = oqupy.SystemChain([d] * nsites)
